@@ -1,6 +1,7 @@
 """C13: WebSocket messages arrive intact, in order, on an RFC 6455-valid wire
 (spec/wswire: WsWire = validator of recorded frame streams, WsWriterCfg = configuration matrix,
-WsPeer = conformant foreign sender + implementation-shaped receiver on symbolic octets, WsHandshake = opening
+WsPeer = conformant foreign sender + implementation-shaped receiver on symbolic octets (mask state, decompress flag,
+read buffer), PreparedCache = per-key cache of a prepared message under a concurrent broadcast, WsHandshake = opening
 handshake table)."""
 import copy
 import json
@@ -17,7 +18,10 @@ DEVS = ["rsv1-on-continuation", "rsv1-missing", "rsv1-uncompressed", "len16-for-
         "control-fragmented", "control-126", "control-rsv1", "deflate-tail-kept", "payload-truncated", "rsv3-set"]
 SELFTEST_BASE = 9000000      # session numbers of the corrupted copies (binding self-test)
 HS_BASE = 1000000            # session numbers of the handshake stage
-PEER_DEVS = ["mask-offset-per-message", "mask-key-kept", "mask-pos-per-read", "decompress-sticky"]
+PEER_DEVS = ["mask-offset-per-message", "mask-key-kept", "mask-pos-per-read", "decompress-sticky"]     # violate Intact
+PM_BASE = 2000000            # session numbers of the prepared-message stage
+TLC_PAR = int(os.environ.get("VERIF_PAR", "4"))      # TLC runs / replayers side by side
+TLC_HEAP = ["-Xmx2g"]
 
 
 def _dev_cfg(dev):
@@ -138,7 +142,12 @@ def run(ctx):
                 "messages of 2..6 fragments; WsPeer: TLC enumerates every stream of a conformant foreign sender (one message cut at any "
                 "2 (thorough 3) of 14 lengths covering the residues modulo 4 and 8 below and above two machine words, at any 3 (4) of 6 "
                 "lengths; lists of 2 and 3 messages compressed or not in every order with a ping between any two frames) x role x Read "
-                "size of the receiving application, each written with 4 masking-key schedules into a real Conn; WsHandshake: crafted requests with at most 2 (thorough 3) fields off the conformant request x server "
+                "size of the receiving application, each written with 4 masking-key schedules into a real Conn; ctl: ReadBufferSize of the "
+                "receiving Conn {default, 1, 16, 64, 100, 124, 125, 126, 4096} x a ping of {0, 17, 125} (thorough + 1, 16, 101, 124) octets "
+                "before, between or inside two messages; the writer sessions' peer and a fourth Dialer/Upgrader combination also read "
+                "through buffers below 125; PreparedCache: every multiset of 3 connection options out of 4 (thorough 7) x prepared message "
+                "used before or not x {1000 B, 500 kB}, TLC explores every schedule of the model, the harness releases 3 goroutines "
+                "together, 2-3 rounds; WsHandshake: crafted requests with at most 2 (thorough 3) fields off the conformant request x server "
                 "configurations, scripted responses x client configurations, library client x library server; a case is distinct if its "
                 "JSON differs. Every session is replayed into real Conn endpoints; every frame the library wrote becomes one step of "
                 "Trace_WsWire (sessions with identical role, messages and frame records are validated once)")
@@ -151,6 +160,9 @@ def run(ctx):
         "frame records are produced by the harness's own tokenizer (field extraction, unmasking, RFC 7692 inflation with compress/flate); "
         "equality of the reassembled payload with the written message is computed in Go and judged in WsWire (TLC cannot hold megabytes)",
         "write/read deadlines, TLS, proxies, subprotocols and cookies are not exercised",
+        "PreparedCache: which schedule of the model a broadcast realises is the Go scheduler's choice (goroutines released together, "
+        "payloads large enough for the build to take milliseconds, repeated rounds): a schedule-dependent defect is found with high "
+        "probability, not with certainty; data races as such are not judged here (C15)",
         "handshake: only inputs on which RFC 6455 section 4 gives a verdict (no multi-token Connection value in responses, no unsolicited "
         "or partial permessage-deflate answers); a refused request may be answered with the status of any rule it breaks",
         "the rule 'a compressed message does not end in the octet ff' stands for RFC 7692 7.2.1 step 3 (tail 00 00 ff ff removed)",
@@ -161,19 +173,21 @@ def run(ctx):
     cases_h = os.path.join(ctx.out, "cases_handshake.ndjson")
     cases_walk = os.path.join(ctx.out, "cases_walk.ndjson")
     cases_p = os.path.join(ctx.out, "cases_foreign.ndjson")
+    cases_pm = os.path.join(ctx.out, "cases_prepared.ndjson")
 
     # ---- phase 1: the specifications (independent TLC runs side by side) and the harness build
     jobs = []
-    pool = ThreadPoolExecutor(max_workers=8)
+    pool = ThreadPoolExecutor(max_workers=TLC_PAR)
 
     def tlc(counted, *a, **kw):
         kw.setdefault("workers", 4)
+        kw.setdefault("jopts", TLC_HEAP)
         kw["count_states"] = False
         f = pool.submit(ctx.tlc, *a, **kw)
         jobs.append((f, counted))
         return f
 
-    for m in ("WsWire", "WsWriterCfg", "WsPeer", "WsHandshake", "Trace_WsWire"):
+    for m in ("WsWire", "WsWriterCfg", "WsPeer", "PreparedCache", "WsHandshake", "Trace_WsWire"):
         jobs.append((pool.submit(ctx.sany, SUB, m), False))
     build = pool.submit(ctx.go_build)
     # WsWire: the conformant sender is always accepted ...
@@ -192,6 +206,11 @@ def run(ctx):
     tlc(True, SUB, "MC_WsPeer", "MC_WsPeer.cfg" if thorough else "MC_WsPeer.quick.cfg", coverage=thorough)
     for d in (PEER_DEVS if thorough else PEER_DEVS[:1] + PEER_DEVS[3:]):
         tlc(False, SUB, "MC_WsPeer", "MC_WsPeer_dev_%s.cfg" % d.replace("-", "_"), expect_violation="Intact", workers=2)
+    tlc(False, SUB, "MC_WsPeer", "MC_WsPeer_dev_read_buffer_unclamped.cfg", expect_violation="AllDelivered", workers=2)
+    # PreparedCache: every schedule of a broadcast hands every writer the built frame (the same run emits the
+    # configurations as cases); published before built, HandedBuilt must be violated
+    tlc(True, SUB, "Gen_PreparedCache", "Gen_PreparedCache.%s.cfg" % t, cases_to=cases_pm, workers=2)
+    tlc(False, SUB, "Gen_PreparedCache", "MC_PreparedCache_dev_published_before_built.cfg", expect_violation="HandedBuilt", workers=1)
     # WsHandshake: the table, and its deviations
     tlc(True, SUB, "MC_WsHandshake", "MC_WsHandshake.cfg", coverage=thorough)
     tlc(False, SUB, "MC_WsHandshake", "MC_WsHandshake_dev_accept_without_guid.cfg", expect_violation="LibConnects")
@@ -224,14 +243,18 @@ def run(ctx):
     fw = pool.submit(ctx.replay, "wswriter", cases_w, dir=trdir, timeout=2400)
     fh = pool.submit(_replay_crashing, ctx, "wshandshake", cases_h, dir=os.path.join(trdir, "hs"), extra={"sbase": HS_BASE}, timeout=2400)
     fp = pool.submit(ctx.replay, "wsforeign", cases_p, timeout=2400)
+    # (the broadcasts want the processors to themselves: after the others)
     res_w, res_h, res_p = fw.result(), fh.result(), fp.result()
+    res_pm = ctx.replay("wsprepared", cases_pm, dir=os.path.join(trdir, "pm"), extra={"sbase": PM_BASE}, timeout=2400, again=8)
     pool.shutdown()
     ctx.judge("wswriter", cases_w, res_w)
     ctx.judge("wsforeign", cases_p, res_p)
+    _judge_scheduled(ctx, "wsprepared", cases_pm, res_pm, extra={"sbase": PM_BASE})
     ctx.judge("wshandshake", cases_h, res_h, extra={"sbase": HS_BASE})
 
     # ---- phase 3: trace validation of everything the library wrote, plus the binding self-test
-    parts = [p for p in (os.path.join(trdir, "trace_wswire.ndjson"), os.path.join(trdir, "hs", "trace_wswire.ndjson")) if os.path.exists(p)]
+    parts = [p for p in (os.path.join(trdir, "trace_wswire.ndjson"), os.path.join(trdir, "hs", "trace_wswire.ndjson"),
+                         os.path.join(trdir, "pm", "trace_wswire.ndjson")) if os.path.exists(p)]
     if not parts:
         raise vlib.Broken("the replayers recorded no trace")
     trace = os.path.join(ctx.out, "trace.ndjson")
@@ -280,7 +303,7 @@ def run(ctx):
     # rejections of real sessions are verdicts about the library (after reproduction in isolation)
     real = {s: v for s, v in by_ses.items() if s < SELFTEST_BASE}
     owners = {}
-    for stage, cpath, res in (("wswriter", cases_w, res_w), ("wshandshake", cases_h, res_h)):
+    for stage, cpath, res in (("wswriter", cases_w, res_w), ("wshandshake", cases_h, res_h), ("wsprepared", cases_pm, res_pm)):
         cl = None
         for r in res:
             for s in ((r.get("info") or {}).get("s") or []):
@@ -289,7 +312,7 @@ def run(ctx):
                         cl = ctx.load_cases(cpath)
                     owners.setdefault(s, []).append((stage, json.loads(cl[r["i"]]), r["i"]))
     ctx.notes["trace"] = {"lines": len(all_lines), "sessions_recorded": len(sessions),
-                          "sessions_of_cases": sum(len((r.get("info") or {}).get("s") or []) for r in res_w + res_h),
+                          "sessions_of_cases": sum(len((r.get("info") or {}).get("s") or []) for r in res_w + res_h + res_pm),
                           "rejected_sessions": len(real)}
     ctx.traces_validated += len(sessions)
     classes = {}
@@ -346,6 +369,28 @@ def _replay_crashing(ctx, stage, cases, **kw):
             raise first      # it died of a library panic once and then never again: not reproducible, not a verdict
         return res
     raise first
+
+
+def _judge_scheduled(ctx, stage, cases_path, res, extra=None):
+    """judge for a stage whose cases leave the schedule to the Go scheduler: a failure is reproduced by running (up to 6
+    of) the failing cases again, the ones with the largest payloads first - there the window is widest; it is a verdict
+    when one of them fails again. (vlib's own reproduction wants each of the first failures of a class to fail again
+    alone, which a schedule-dependent one need not.)"""
+    fails = ctx.judge(stage, cases_path, res, extra=extra, reproduce=False)
+    if not fails:
+        return
+    pick = sorted(fails, key=lambda cr: -cr[0].get("size", 0))[:6]
+    again = os.path.join(ctx.out, "again_%s.ndjson" % stage)
+    with open(again, "w") as f:
+        for case, _ in pick:
+            f.write(json.dumps(case) + "\n")
+    d = os.path.join(ctx.out, "repro_" + stage)
+    shutil.rmtree(d, ignore_errors=True)
+    for attempt in range(2):
+        if any(not r["ok"] for r in ctx.replay(stage, again, dir=d, extra=extra, again=0)):
+            return
+    raise vlib.Broken("%d failures of stage %s, none of %d came again in two more runs: %s"
+                      % (len(fails), stage, len(pick), json.dumps(pick[0][1])[:400]))
 
 
 def _reproduce(ctx, stage, case, why):
